@@ -1,6 +1,7 @@
 package main
 
 import (
+	"crypto/tls"
 	"fmt"
 	"runtime"
 	"strings"
@@ -378,7 +379,13 @@ func c13run(idx int) run.Result {
 			defer wg.Done()
 			stream, ends := encodeReqs(p.Reqs)
 			c := sconn.New(sconn.Script{Chunks: chunkAt(stream, ends), End: sconn.EOF})
-			sr := double.Serve(srv, c, serveWait)
+			// the odd connections arrive the way connections of the TLS port do (no common-name rule is configured,
+			// so the certificate check has nothing to refuse): the defaults of a connection do not depend on its port
+			var st *tls.ConnectionState
+			if i%2 == 1 {
+				st = &tls.ConnectionState{HandshakeComplete: true}
+			}
+			sr := double.ServeTLS(srv, c, st, serveWait)
 			if sr.TimedOut {
 				timedOut = true
 			}
@@ -401,7 +408,7 @@ func init() {
 	run.Register(&run.Prop{
 		ID: "C13", Level: "exploration",
 		Rule: func(tier string) string {
-			return "case = 2..8 connections served by one server through hook H1 (children are built with the Go race detector), each running its own program of SELECT n (small, negative and huge indices; ill-formed tokens; surplus arguments), AUTH (right and wrong; two fifths of the cases require a password - half of them only through the configuration, the way CONFIG SET requirepass or SetRequirePass on a running server leave it, so that the framework registers the authenticator when the first AUTH arrives -, another fifth require none but have an application authenticator that refuses wrong credentials with (false, nil) rather than an error) and single-call data commands whose keys carry the issuing connection's tag. Schedules: (systematic) two connections in lock-step under ALL 70 interleavings of two 4-request programs; (free-running) every connection on its own goroutine with seeded Gosched yields inside the handler double. Monitor: every handler call is attributed to the issuing connection by its key tag and must show conn.Database(), IsAuthrized(), conn.UserName()/Password() (the credentials of the connection's last successful AUTH), a per-connection counter kept in the connection's sync.Map and the connection UUID equal to that connection's own command history, where a SELECT or AUTH counts iff its reply was +OK (programs are sequential per connection, so the expectation is exact under any interleaving); UUIDs of different connections differ. Evidence reports distinct observed interleavings (hash of the global call order)"
+			return "case = 2..8 connections served by one server through hook H1 (children are built with the Go race detector), each running its own program of SELECT n (small, negative and huge indices; ill-formed tokens; surplus arguments), AUTH (right and wrong; two fifths of the cases require a password - half of them only through the configuration, the way CONFIG SET requirepass or SetRequirePass on a running server leave it, so that the framework registers the authenticator when the first AUTH arrives -, another fifth require none but have an application authenticator that refuses wrong credentials with (false, nil) rather than an error) and single-call data commands whose keys carry the issuing connection's tag. In the free-running cases the odd connections carry a TLS connection state, as connections of the TLS port do. Schedules: (systematic) two connections in lock-step under ALL 70 interleavings of two 4-request programs; (free-running) every connection on its own goroutine with seeded Gosched yields inside the handler double. Monitor: every handler call is attributed to the issuing connection by its key tag and must show conn.Database(), IsAuthrized(), conn.UserName()/Password() (the credentials of the connection's last successful AUTH), a per-connection counter kept in the connection's sync.Map and the connection UUID equal to that connection's own command history, where a SELECT or AUTH counts iff its reply was +OK (programs are sequential per connection, so the expectation is exact under any interleaving); UUIDs of different connections differ. Evidence reports distinct observed interleavings (hash of the global call order)"
 		},
 		Assumptions: []string{"the per-connection user data is observed through the sync.Map embedded in redis.Conn"},
 		Setup: func(tier string, seed uint64) int {
